@@ -1,4 +1,4 @@
-//go:build verif
+//go:build verif && !verifnonode
 
 package art
 
@@ -67,37 +67,6 @@ func (h *VerifNodeHandle) RecordedLen() int {
 		return 0
 	}
 	return int(h.ref.node().childrenLen)
-}
-
-func verifRestoreDummy(p unsafe.Pointer) (int, int) {
-	return (*verifDummyLeaf)(p).id, 0
-}
-
-// Children runs the library's own ascending traversal over the node.
-func (h *VerifNodeHandle) Children() []int {
-	var ids []int
-	for id := range all[int, int](h.ref, verifRestoreDummy) {
-		ids = append(ids, id)
-	}
-	return ids
-}
-
-// ChildrenBackward runs the library's own descending traversal over the node.
-func (h *VerifNodeHandle) ChildrenBackward() []int {
-	var ids []int
-	for id := range backward[int, int](h.ref, verifRestoreDummy) {
-		ids = append(ids, id)
-	}
-	return ids
-}
-
-// First and Last use the library's minimum/maximum descent.
-func (h *VerifNodeHandle) First() int {
-	return (*verifDummyLeaf)(minimum[int](h.ref)).id
-}
-
-func (h *VerifNodeHandle) Last() int {
-	return (*verifDummyLeaf)(maximum[int](h.ref)).id
 }
 
 // Keys4 / Keys16 expose the key array of a node in the 4- or 16-slot class
